@@ -644,3 +644,22 @@ mod test {
         Ok(())
     }
 }
+
+/// Read-only table sizes for the verification harness (cargo feature `verif-hooks`).
+#[cfg(feature = "verif-hooks")]
+impl Udp {
+    pub(crate) fn verif_bind_count(&self) -> usize {
+        self.binds.len()
+    }
+}
+
+#[cfg(feature = "verif-hooks")]
+impl Tcp {
+    pub(crate) fn verif_bind_count(&self) -> usize {
+        self.binds.len()
+    }
+
+    pub(crate) fn verif_socket_count(&self) -> usize {
+        self.sockets.len()
+    }
+}
